@@ -178,10 +178,47 @@ MERGE_MODEL_THEOREMS = ['Nbdime.C06_model_no_conflict']
 THEOREMS.extend(t for t in MERGE_MODEL_THEOREMS if t not in THEOREMS)
 
 
+def theorem_domain(ctx):
+    """ownership cases through the Lean merger: correspondence, and the hypothesis `Merge.disjoint` of
+    C06_model_no_conflict evaluated by the driver (how many generated cases lie inside the theorem)"""
+    import random
+    from checks import mergemodel
+    rng = random.Random('C06/domain/%s/%d' % (ctx.tier, ctx.seed))
+    combos = [mergelib.Args('inline'), mergelib.Args('mergetool'), mergelib.Args('use-local'), mergelib.Args('inline', 'use-base', 'remove')]
+    cases, reqs = [], []
+    for t in range(40 if ctx.tier == 'quick' else 600):
+        b, l, r, e, info = owned_case(rng)
+        a = combos[t % len(combos)]
+        try:
+            nb, ld, rd, S = mergemodel.notebook_case(b, l, r, a)
+        except Exception:
+            continue
+        with mergelib.renderer('builtin'):
+            res, req = mergemodel.impl_decide(nb, ld, rd, S)
+        cases.append((res, {'b': enc(b), 'l': enc(l), 'r': enc(r), 'strategy': a.key(), 'helper': 'builtin', 'info': info}))
+        reqs += [req, dict(req, want='disjoint')]
+    replies = vlib.Driver().run(reqs) if reqs else []
+    mism = []
+    for i, (res, data) in enumerate(cases):
+        rep, dom = replies[2 * i], replies[2 * i + 1]
+        ctx.cov['traces_validated_against_impl'] += 1
+        inside = dom.get('ok') is True
+        ctx.count('theorem-domain:disjoint' if inside else 'theorem-domain:outside (both sides patch one string / similar)')
+        if not mergemodel.same(res, rep):
+            mism.append({'stream': 'merge-model', 'tag': 'owned', 'difference': mergemodel.first_difference(res, rep), 'case': data})
+        elif inside and 'ok' in res and any(d['conflict'] for d in res['ok']):
+            # the theorem says: impossible for the model; the implementation agrees with the model here, so this cannot happen either
+            mism.append({'stream': 'merge-model', 'tag': 'owned-theorem', 'difference': {'conflicts': sum(1 for d in res['ok'] if d['conflict'])}, 'case': data})
+    ctx.cov['correspondence_mismatches'] = ctx.cov.get('correspondence_mismatches', 0) + len(mism)
+    return mism
+
+
 def run(ctx):
     from checks import mergemodel
     _run_property(ctx)
+    mism = theorem_domain(ctx)
     mergemodel.tie(ctx, (40, 40, 400, 500), MERGE_MODEL_THEOREMS)
+    mergemodel.report(ctx, mism, MERGE_MODEL_THEOREMS)
 
 
 def replay(path):
